@@ -181,6 +181,8 @@ func factsC09() {
 	emitStrList("f_sig_idl_map", stringLits(trel, "MapType", "SignatureIDL"))
 	emitStrList("f_sig_idl_tuple", stringLits(trel, "TupleType", "SignatureIDL"))
 	emitStr("f_sig_idl_struct_text", normText(trel, "StructType", "SignatureIDL"))
+	emitStr("f_sig_MapType_Type_text", normText(trel, "MapType", "Type"))
+	emitStr("f_sig_StructType_Type_text", normText(trel, "StructType", "Type"))
 	emitStrList("f_sig_NewTupleType_lits", stringLits(trel, "", "NewTupleType"))
 
 	// the goparsec version the combinator model (Peg.v) was read from
